@@ -480,7 +480,14 @@ class World:
             # raised again and again within the request, 3: fresh, constructed with a bogus path, 4: a MODULE-LEVEL constant
             # (lives across requests and configurations) that was serialised when it was created, 5: fresh, rendered
             # (to_dict/str/repr) by the resolver itself before it is raised
-            cls = rng.choice([0, 1, 2, 2, 3, 4, 4, 5])
+            cls = rng.choice([0, 1, 2, 2, 3, 4, 4, 5, 6, 6, 6])
+            if cls == 6:
+                # an application subclass with its own shape: __slots__, class-level / property `extensions`, own constructor
+                # signature, __copy__ override; o[6] = kind, message and extensions are what the class renders
+                kind = APP_KINDS[rng.randrange(len(APP_KINDS))]
+                code = "C%d" % idx
+                m, ext = app_error_classes()[kind][2](MESSAGES[rng.randrange(len(MESSAGES))], code)
+                return ("raised", m, ext, 6, idx, None, kind, code)
             return ("raised", msg, EXT_FACTORIES[idx](), cls, idx, mi)
         v = self.value_of(ftype, rng)
         if self.p_complete and rng.random() < self.p_complete:
@@ -535,6 +542,10 @@ class World:
                 ext = BAD_EXT_FACTORIES[(o[4] + len(path)) % len(BAD_EXT_FACTORIES)]()
                 self.injected_bad_ext = True
             m = o[1] if o[5] is None else MESSAGE_OBJECTS[o[5]]()
+            if o[3] == 6:
+                kind, code = o[6], o[7]
+                msg_in = o[1]
+                raise app_error_classes()[kind][1](msg_in, code)
             if o[3] == 2:
                 key = (o[1], o[4], o[5])
                 err = self.shared.get(key)
@@ -552,6 +563,78 @@ class World:
             raise err
         return o[1]
 
+
+# ---- application error classes (the documentation tells users to subclass ResolverError) -------------------------------
+
+_APP = {}
+
+
+def app_error_classes():
+    """name -> (class, build(msg, code) -> instance, expected extensions for `code`)"""
+    if _APP:
+        return _APP
+    from py_gql.exc import ResolverError, GraphQLLocatedError
+
+    class SlotsError(ResolverError):
+        """state in __slots__, rendered by its own to_dict"""
+        __slots__ = ("code", "_SlotsError__hidden")
+
+        def __init__(self, message, code):
+            super().__init__(message)
+            self.code = code
+            self.__hidden = "h"
+
+        def to_dict(self):
+            d = super().to_dict()
+            d["extensions"] = {"code": self.code, "hidden": self.__hidden}
+            return d
+
+    class ClassLevelExtensions(ResolverError):
+        """`extensions` exposed as a class attribute (promised by the docstring of ResolverError)"""
+        extensions = {"code": "CLASS_LEVEL"}
+
+    class OwnSignature(ResolverError):
+        """custom constructor signature, message fixed by the class"""
+
+        def __init__(self, code, *, detail=None):
+            super().__init__("own signature", extensions={"code": code, "detail": detail})
+            self.code = code
+
+    class PropertyExtensions(ResolverError):
+        """`extensions` is a read-only property computed from other state"""
+
+        def __init__(self, message, code):
+            GraphQLLocatedError.__init__(self, message)
+            self.code = code
+
+        @property
+        def extensions(self):
+            return {"code": self.code, "via": "property"}
+
+    class OwnCopy(ResolverError):
+        """defines __copy__ / __deepcopy__ (whatever the library does to duplicate it, the response must be the same)"""
+
+        def __init__(self, message, code):
+            super().__init__(message, extensions={"code": code})
+            self.code = code
+
+        def __copy__(self):
+            return OwnCopy(self.message, self.code)
+
+        def __deepcopy__(self, memo):
+            return OwnCopy(self.message, self.code)
+
+    _APP.update({
+        "slots": (SlotsError, lambda m, c: SlotsError(m, c), lambda m, c: (m, {"code": c, "hidden": "h"})),
+        "class-level-extensions": (ClassLevelExtensions, lambda m, c: ClassLevelExtensions(m), lambda m, c: (m, {"code": "CLASS_LEVEL"})),
+        "own-signature": (OwnSignature, lambda m, c: OwnSignature(c, detail=[c]), lambda m, c: ("own signature", {"code": c, "detail": [c]})),
+        "property-extensions": (PropertyExtensions, lambda m, c: PropertyExtensions(m, c), lambda m, c: (m, {"code": c, "via": "property"})),
+        "own-copy": (OwnCopy, lambda m, c: OwnCopy(m, c), lambda m, c: (m, {"code": c})),
+    })
+    return _APP
+
+
+APP_KINDS = ["slots", "class-level-extensions", "own-signature", "property-extensions", "own-copy"]
 
 _MY = []
 
